@@ -26,3 +26,9 @@ Lemma yield_retry_window_holds :
   (retry_total gen_yield_retry_delay_ms gen_send_result_deadline_ms
    < 2 * gen_send_result_deadline_ms + gen_yield_retry_delay_ms)%N.
 Proof. vm_compute. split; reflexivity. Qed.
+
+(** The translator's reading of [dealer.syncYield]: the invocation is kept
+    while a retry is pending. *)
+Lemma yield_retry_keeps_invocation_holds :
+  yield_retry_keeps_invocation gen_yield_retry_keeps_invocation = true.
+Proof. vm_compute. reflexivity. Qed.
